@@ -68,6 +68,7 @@ let parse_fd (e : sexp) : fd option =
   match e with
   | L [A "i"; lo; hi] -> Some (fd_from_range (znum lo) (znum hi))
   | L (A "v" :: xs) -> fd_from_vec (List.map znum xs)       (* From<Vec>: None = panic *)
+  | L (A "s" :: xs) -> fd_from_vec (List.map znum xs)       (* From<&[isize]>: the same set *)
   | L [A "n"; x] -> Some (fd_from_value (znum x))
   | _ -> failwith "bad fd"
 let parse_pred (e : sexp) : z -> bool =
